@@ -2,6 +2,8 @@
    requests (as completed by the harness with the oracle tables):
      (0 text dts res)    Query::parse(text), TryFrom<&str>, to_string, parse(to_string)
      (1 query dts res)   a query built through the public API: to_string, parse(to_string)
+     (4 query dts res)   the same as 1, constraints attached through constrain()
+     (5 text dts res constraints)  Query::parse(text) extended with constrain(c) for each constraint
      (3 kind qual depth items)  SELECT ANNOTATION ?x with one collection constraint (Annotations 0,
                          Data 1, Keys 2, Resources 3, TextSelections 4) over the harness's fixed store;
                          items = what the store says about each handle, () = no such item:
@@ -77,6 +79,23 @@ Section Run.
 
   Definition run_built (q : query) : list sx :=
     triple (e_query q) (e_query q) 0 :: print_and_back q.
+
+  (* constrain(): the constraint and an empty attribute list are appended *)
+  Definition q_constrain (q : query) (extra : list constr) : query :=
+    match q with
+    | Q name qt optional rt asg cs cas subs attrs =>
+        Q name qt optional rt asg (cs ++ extra) (cas ++ map (fun _ => []) extra) subs attrs
+    end.
+
+  Definition run_extended (s : str) (extra : list constr) : list sx :=
+    match parse_query dt re s with
+    | Ok (q, _) =>
+        let q' := q_constrain q extra in
+        triple (L [A 0; e_query q']) (L [A 0; e_query q']) 0 :: print_and_back q'
+    | Err => [triple (L [A 1]) (L [A 1]) 0; triple na na 0; triple na na 0]
+    | Panic => [triple (L [A (-1)]) (L [A 1]) 20; triple na na 0; triple na na 0]
+    | Fuel => [triple (L [A (-3)]) (L [A 1]) 21; triple na na 0; triple na na 0]
+    end.
 End Run.
 
 (* collection constraints *)
@@ -127,6 +146,8 @@ Definition run_C09 (x : sx) : sx :=
   | 0 => L (run_text dt re (d_str (sx_nth 1 x)))
   | 1 => L (run_built dt re (d_query 40 (sx_nth 1 x)))
   | 3 => L (run_coll x)
+  | 4 => L (run_built dt re (d_query 40 (sx_nth 1 x)))
+  | 5 => L (run_extended dt re (d_str (sx_nth 1 x)) (map (d_constr 40) (sx_list (sx_nth 4 x))))
   | _ =>
       (* (2 n mode): n nested "[ " (mode 0) or "{ SELECT ..." (mode 1), never closed: a syntax error
          is demanded.  Constraint::parse / parse_select recurse once per nesting level without a bound;
